@@ -273,6 +273,51 @@ def check_names_and_dataflow(ctx, case, x, rng, max_positions=40):
                               feats)
 
 
+def check_integer_vector(ctx, case, rng, with_s1=False):
+    """a whole-number vector scores the same whether it is handed over as
+    floats, as an integer array or as a list of Python ints"""
+    if any(l.cov for l in case.leaves):
+        return
+    n = int(np.sum(case.free_mask()))
+    xi = rng.integers(1, 3, size=n)
+    feats = dict(case.features(), input_type='integer vector')
+    forms = [('float array', np.array(xi, dtype=float)),
+             ('int array', np.array(xi, dtype=int)),
+             ('list of ints', [int(v) for v in xi])]
+    vals, grads = {}, {}
+    for name, arg in forms:
+        try:
+            vals[name] = case.obj(arg)
+            if with_s1:
+                s, g = case.obj.evaluateS1(arg)
+                grads[name] = (s, np.asarray(g, dtype=float))
+        except Exception as e:      # noqa
+            ctx.violation_exc('constructible_model_is_usable', e,
+                              {'case': case.describe(), 'input': name},
+                              feats)
+            return
+    ctx.count('integer_vectors_compared')
+    ref = vals['float array']
+    for name in ('int array', 'list of ints'):
+        if not ctx.close(vals[name], ref, rtol=1e-12,
+                         scale=abs(ref) + 1 if np.isfinite(ref) else 1):
+            ctx.violation('value_independent_of_vector_dtype',
+                          'integer_vector_scores_differently',
+                          {'float': ref, name: vals[name], 'vector': xi,
+                           'case': case.describe()}, feats)
+            return
+        if with_s1 and np.isfinite(ref):
+            gs = 1 + float(np.max(np.abs(grads['float array'][1])))
+            if not ctx.close(grads[name][1], grads['float array'][1],
+                             rtol=1e-10, scale=gs):
+                ctx.violation('gradient_independent_of_vector_dtype',
+                              'integer_vector_gradient_differs',
+                              {'float': grads['float array'][1],
+                               name: grads[name][1], 'vector': xi,
+                               'case': case.describe()}, feats)
+                return
+
+
 def _run(ctx, rng, case, tag, dataflow):
     ctx.case(case.signature(), case.nontrivial(), sample=case.describe())
     if build(ctx, case, rng, tap=True) is None:
@@ -288,6 +333,7 @@ def _run(ctx, rng, case, tag, dataflow):
     # a second, independent point (layout errors can cancel at one point)
     x2 = x * np.exp(0.05 * rng.normal(size=len(x)))
     check_value(ctx, case, x2, tag)
+    check_integer_vector(ctx, case, rng)
 
 
 def enumerated_case(ctx, rng, idx):
